@@ -417,6 +417,12 @@ class SimulationAlgorithm3DBase
         return t;
         }
 
+    bool IsComplete()
+    // tells if the simulation has been flagged as complete
+        {
+        return complete;
+        }
+
     std::vector<double> & GetSampledT()
         {
         return sampled_t;
